@@ -175,32 +175,23 @@ func (g *glueRun) openRules() {
 		}
 		// the verdict: some comparison result == 1 on the path, produced by openAsm (fused) or ConstantTimeCompare over the tags
 		okV := false
-		for _, f := range o.st.pfacts {
-			if f.a == nil {
+		for i, ef := range o.st.geff {
+			if ef.kind != "call" || (ef.what != "openAsm" && ef.what != "ConstantTimeCompare") {
 				continue
 			}
-			x, k := f.a, f.b
-			if x.op != "asmret" {
-				x, k = k, x
+			res := &pt{op: "asmret", s: fmt.Sprintf("%s#%d", ef.what, i+1)}
+			if !g.prove(o, res, token.EQL, pC(1)) {
+				continue // this comparison's result does not decide the outcome
 			}
-			if x.op != "asmret" || k.op != "c" || k.n.Int64() != 1 || f.op != token.EQL {
-				continue
-			}
-			// find the call
-			for i, ef := range o.st.geff {
-				if ef.kind != "call" || fmt.Sprintf("%s#%d", ef.what, i+1) != x.s {
-					continue
-				}
-				switch ef.what {
-				case "openAsm":
-					okV = g.openAsmArgs(o, ef.args, &badV)
-				case "ConstantTimeCompare":
-					okV = g.tagCompareArgs(o, ef.args, &badV)
-					// nothing may be written into the result before the comparison
-					for _, w := range o.st.geff[:i] {
-						if (w.kind == "write" || w.kind == "copy") && (w.obj == dstObj && dstObj != 0) {
-							badW = append(badW, fmt.Sprintf("dst's array is written (%s at %s) before the tags are compared", w.what, w.pos))
-						}
+			switch ef.what {
+			case "openAsm":
+				okV = g.openAsmArgs(o, ef.args, &badV) || okV
+			case "ConstantTimeCompare":
+				okV = g.tagCompareArgs(o, ef.args, &badV) || okV
+				// nothing may be written into the result before the comparison
+				for _, w := range o.st.geff[:i] {
+					if (w.kind == "write" || w.kind == "copy") && (w.obj == dstObj && dstObj != 0) {
+						badW = append(badW, fmt.Sprintf("dst's array is written (%s at %s) before the tags are compared", w.what, w.pos))
 					}
 				}
 			}
@@ -290,20 +281,20 @@ func (g *glueRun) tagCompareArgs(o protoOutcome, args []sVal, bad *[]string) boo
 }
 
 // blockGuards: Encrypt/Decrypt of a cipher.Block panic unless both arguments hold one block
-func (g *glueRun) blockGuards() {
+func (g *glueRun) blockGuards(width int64) {
 	pos := g.p.Pos(g.fn.Pos())
 	var bad []string
 	n := 0
 	for _, o := range g.outs {
 		n++
 		for _, nm := range []string{"dst", "src"} {
-			if !g.prove(o, pOp("len", pParam(nm)), token.GEQ, pC(16)) {
-				bad = append(bad, "a returning outcome does not establish len("+nm+") >= 16")
+			if !g.prove(o, pOp("len", pParam(nm)), token.GEQ, pC(width)) {
+				bad = append(bad, fmt.Sprintf("a returning outcome does not establish len(%s) >= %d", nm, width))
 			}
 		}
 	}
 	sort.Strings(bad)
-	g.r.Check(len(bad) == 0 && n > 0, "BLOCK-GUARDS", g.key(), pos, fmt.Sprintf("each of the %d returning outcomes has len(dst) >= 16 and len(src) >= 16 (shorter arguments panic)", n)+ifs(len(bad) > 0, ": "+strings.Join(firstN(uniq(bad), 3), "; ")))
+	g.r.Check(len(bad) == 0 && n > 0, "BLOCK-GUARDS", g.key(), pos, fmt.Sprintf("each of the %d returning outcomes has len(dst) >= %d and len(src) >= %d (shorter arguments panic)", n, width, width)+ifs(len(bad) > 0, ": "+strings.Join(firstN(uniq(bad), 3), "; ")))
 }
 
 // keySizeGuard: NewCipher returns a cipher only for 16-byte keys
@@ -332,3 +323,141 @@ func (g *glueRun) keySizeGuard() {
 }
 
 func glueArchs() []string { return []string{"amd64", "arm64"} }
+
+// glueGCM runs the rule families selected in fam ("C07", "C10", "C11") on Seal and Open of one architecture
+func glueGCM(r *Report, p *Prog, arch string, fam map[string]bool) {
+	pt0 := pParam("plaintext")
+	ct := pParam("ciphertext")
+	ts := pParam("g.tagSize")
+	if g := newGlueRun(r, p, arch, "sm4.(*sm4GcmAsm).Seal", tagSizePreFacts(true)); g != nil {
+		if fam["C11"] {
+			g.obligations("CALLSITE", "SLICE-BOUNDS", "INDEX-BOUNDS")
+		}
+		if fam["C10"] {
+			g.appendContract(0, pAdd(pOp("len", pt0), ts), func(o protoOutcome) bool { return len(o.vals) == 1 })
+		}
+	}
+	if g := newGlueRun(r, p, arch, "sm4.(*sm4GcmAsm).Open", tagSizePreFacts(false)); g != nil {
+		if fam["C11"] {
+			g.obligations("CALLSITE", "SLICE-BOUNDS", "INDEX-BOUNDS")
+		}
+		if fam["C10"] {
+			g.appendContract(0, pAdd(pOp("len", ct), pNeg(ts)), acceptsOpen)
+		}
+		if fam["C07"] {
+			g.openRules()
+		}
+	}
+}
+
+// glueBlocks: the cipher.Block methods and the constructor
+func glueBlocks(r *Report, p *Prog, arch string, fam map[string]bool) {
+	for _, name := range []string{"sm4.(*sm4CipherAsm).Encrypt", "sm4.(*sm4CipherAsm).Decrypt", "sm4.(*sm4Cipher).Encrypt", "sm4.(*sm4Cipher).Decrypt", "sm4.encryptX2", "sm4.decryptX2"} {
+		if p.Func(name) == nil {
+			continue // sm4CipherAsm does not exist in the portable build
+		}
+		if g := newGlueRun(r, p, arch, name, nil); g != nil {
+			if fam["C11"] {
+				g.obligations("CALLSITE", "SLICE-BOUNDS", "INDEX-BOUNDS")
+			}
+			if fam["C05"] || fam["C05block"] {
+				g.blockGuards(map[bool]int64{true: 32, false: 16}[strings.HasSuffix(name, "X2")])
+				g.wiring(map[bool]string{true: "enc", false: "dec"}[strings.Contains(strings.ToLower(name), "encrypt")])
+			}
+		}
+	}
+	if fam["C05"] {
+		for _, name := range []string{"sm4.NewCipher"} {
+			if g := newGlueRun(r, p, arch, name, nil); g != nil {
+				g.keySizeGuard()
+				g.obligations("CALLSITE", "SLICE-BOUNDS", "INDEX-BOUNDS")
+			}
+		}
+	}
+}
+
+func debugGlueRules(args []string) {
+	repo := "/repo"
+	if v := osGetenv("SMGO_REPO"); v != "" {
+		repo = v
+	}
+	r := NewReport("Cxx", "quick", "other")
+	all := map[string]bool{"C05": true, "C07": true, "C10": true, "C11": true}
+	for _, arch := range glueArchs() {
+		p, err := LoadRepo(repo, arch)
+		if err != nil {
+			fmt.Println(err)
+			return
+		}
+		glueGCM(r, p, arch, all)
+		glueBlocks(r, p, arch, all)
+	}
+	for _, o := range r.Obls {
+		if len(args) > 0 && o.Status == "discharged" {
+			continue
+		}
+		fmt.Printf("%-10s %s | %s : %s\n", o.Status, o.Rule, o.Key, trunc(o.Detail, 400))
+	}
+}
+
+// glueGCMOpen: the C07 rules on Open
+func glueGCMOpen(r *Report, p *Prog, arch string) {
+	if g := newGlueRun(r, p, arch, "sm4.(*sm4GcmAsm).Open", tagSizePreFacts(false)); g != nil {
+		g.openRules()
+		g.obligations("SLICE-BOUNDS", "INDEX-BOUNDS")
+	}
+}
+
+// wiring: the block kernel is called exactly once per outcome, with the round keys of the named field of the receiver and
+// with the start of dst as output and the start of src as input
+func (g *glueRun) wiring(field string) {
+	pos := g.p.Pos(g.fn.Pos())
+	var bad []string
+	n := 0
+	for _, o := range g.outs {
+		calls := 0
+		for _, ef := range o.st.geff {
+			if ef.kind != "call" || !strings.HasPrefix(ef.what, "cryptoBlock") {
+				continue
+			}
+			calls++
+			n++
+			// argument roles by the callee's shape: (rk, dst, src) for the assembler kernels, (x, y, rk) for the portable one
+			var rk, out, in sVal
+			if len(ef.args) == 3 {
+				if strings.HasPrefix(ef.what, "cryptoBlockAsm") {
+					rk, out, in = ef.args[0], ef.args[1], ef.args[2]
+				} else {
+					in, out, rk = ef.args[0], ef.args[1], ef.args[2]
+				}
+			}
+			nameOf := func(v sVal) (string, *pt) {
+				if f, ok := v.(gField); ok {
+					return f.recv + "." + f.field, pC(0)
+				}
+				if _, obj, off, ok := g.d.bytesBehind(o.st, v); ok {
+					if h := g.d.gobj(o.st, obj); h != nil {
+						return h.name, off
+					}
+				}
+				return "?", pC(0)
+			}
+			rn, roff := nameOf(rk)
+			if !(strings.HasSuffix(rn, "."+field) && samePoly(roff, pC(0))) {
+				bad = append(bad, fmt.Sprintf("%s receives round keys from %s; the %s schedule is required", ef.what, rn, field))
+			}
+			if on, ooff := nameOf(out); on != "dst" || !samePoly(ooff, pC(0)) {
+				bad = append(bad, fmt.Sprintf("%s writes to %s+%s; the start of dst is required", ef.what, on, ooff))
+			}
+			if in0, ioff := nameOf(in); in0 != "src" || !samePoly(ioff, pC(0)) {
+				bad = append(bad, fmt.Sprintf("%s reads from %s+%s; the start of src is required", ef.what, in0, ioff))
+			}
+		}
+		if calls != 1 {
+			bad = append(bad, fmt.Sprintf("a returning outcome calls the block kernel %d times", calls))
+		}
+	}
+	sort.Strings(bad)
+	g.r.Count("wiring_sites", n)
+	g.r.Check(len(bad) == 0 && n > 0, "CIPHER-WIRING", g.key(), pos, fmt.Sprintf("each returning outcome calls one block kernel with the %q round keys, output at the start of dst and input at the start of src", field)+ifs(len(bad) > 0, ": "+strings.Join(firstN(uniq(bad), 3), "; ")))
+}
